@@ -303,6 +303,10 @@ namespace nmtools::index
             }();
             auto s = compute_range(shape_i,start,stop,step);
             auto step_ = compute_step(step);
+            // a zero step (Python raises ValueError) selects nothing
+            if (step_ == 0) {
+                return static_cast<size_type>(0);
+            }
             // integer ceil division (s >= 0, step_ >= 1): a float quotient loses extents above 2^24
             return static_cast<size_type>(((nm_size_t)s + (nm_size_t)step_ - 1) / (nm_size_t)step_);
         };
@@ -823,8 +827,12 @@ namespace nmtools::index
                 // finally the resulting shape for corresponding indices
                 // is simply the range divided by the step
                 // use constexpr_ceil to allow clang compile this
-                // (integer ceil division, s >= 0 and step >= 1: a float quotient loses extents above 2^24)
-                at(res,r_i++) = static_cast<size_type>(((nm_size_t)s + (nm_size_t)step - 1) / (nm_size_t)step);
+                // (integer ceil division, s >= 0 and step >= 1: a float quotient loses extents above 2^24; a zero step selects nothing)
+                if (step == 0) {
+                    at(res,r_i++) = static_cast<size_type>(0);
+                } else {
+                    at(res,r_i++) = static_cast<size_type>(((nm_size_t)s + (nm_size_t)step - 1) / (nm_size_t)step);
+                }
             } else /* if constexpr (meta::is_index_v<slice_t>) */ {
                 // only reduce the dimension,
                 // doesn't contributes to shape computation
